@@ -59,7 +59,7 @@ func (e *Exec) step(st *State, in ssa.Instruction, b *ssa.BasicBlock, idx int) b
 			// pointer is itself a tracked location of struct type (e.g. &slice[i]) -> field of element
 			su := pt.Underlying().(*types.Struct)
 			f := su.Field(x.Field)
-			loc := &Loc{Key: base.Loc.Key + "." + f.Name(), Typ: f.Type(), Ref: base.Loc.Ref, Idx: base.Loc.Idx, Owner: namedKey(pt), Field: f.Name(), Local: base.Loc.Local}
+			loc := &Loc{Key: subKey(base.Loc.Key, f.Name()), Typ: f.Type(), Ref: base.Loc.Ref, Idx: base.Loc.Idx, Owner: namedKey(pt), Field: f.Name(), Local: base.Loc.Local}
 			fr.env[x] = Val{T: []string{e.fresh("addr", SInt)}, Typ: x.Type(), Loc: loc}
 		}
 	case *ssa.Field:
@@ -125,6 +125,11 @@ func (e *Exec) step(st *State, in ssa.Instruction, b *ssa.BasicBlock, idx int) b
 		pt := x.Addr.Type().Underlying().(*types.Pointer).Elem()
 		if addr.Loc == nil {
 			e.nopanic(st, "nilderef", x, tNot(tEq(addr.T[0], "0")))
+		}
+		if isStruct(pt) && addr.Loc == nil && !isOpaqueStruct(pt) {
+			e.storeStruct(st, addr.T[0], pt, v)
+			e.atAnchor(st, x, nil, nil)
+			break
 		}
 		loc := e.derefLoc(st, addr, pt)
 		e.checkAccess(st, loc, true, x)
@@ -449,6 +454,31 @@ func (e *Exec) unop(st *State, x *ssa.UnOp, b *ssa.BasicBlock, idx int) bool {
 	return false
 }
 
+// storeStruct writes a struct value field by field into the field arrays of the object at ref.
+func (e *Exec) storeStruct(st *State, ref string, t types.Type, v Val) {
+	su := t.Underlying().(*types.Struct)
+	owner := namedKey(t)
+	off := 0
+	for i := 0; i < su.NumFields(); i++ {
+		f := su.Field(i)
+		n := len(shape(f.Type()))
+		if off+n > len(v.T) {
+			st.note("struct store shape mismatch for %s", owner)
+			return
+		}
+		fv := Val{T: v.T[off : off+n], Typ: f.Type()}
+		off += n
+		if isStruct(f.Type()) {
+			fn := e.fun(sym("sub."+owner+"."+f.Name()), []string{SInt}, SInt)
+			if !isOpaqueStruct(f.Type()) {
+				e.storeStruct(st, app(fn, ref), f.Type(), fv)
+			}
+			continue
+		}
+		e.storeTo(st, &Loc{Key: fieldKey(owner, f.Name()), Typ: f.Type(), Ref: ref, Owner: owner, Field: f.Name()}, fv)
+	}
+}
+
 func (e *Exec) loadStruct(st *State, addr Val, t types.Type) Val {
 	su := t.Underlying().(*types.Struct)
 	owner := namedKey(t)
@@ -463,7 +493,7 @@ func (e *Exec) loadStruct(st *State, addr Val, t types.Type) Val {
 		}
 		var loc *Loc
 		if addr.Loc != nil {
-			loc = &Loc{Key: addr.Loc.Key + "." + f.Name(), Typ: f.Type(), Ref: addr.Loc.Ref, Idx: addr.Loc.Idx}
+			loc = &Loc{Key: subKey(addr.Loc.Key, f.Name()), Typ: f.Type(), Ref: addr.Loc.Ref, Idx: addr.Loc.Idx}
 		} else {
 			loc = &Loc{Key: fieldKey(owner, f.Name()), Typ: f.Type(), Ref: addr.T[0], Owner: owner, Field: f.Name()}
 		}
@@ -641,7 +671,9 @@ func (e *Exec) indexAddr(st *State, x *ssa.IndexAddr) {
 	case *types.Slice:
 		e.nopanic(st, "index", x, tAnd(app("bvsge", i64, bvLitI(0, 64)), app("bvslt", i64, bv.T[2])))
 		loc := e.elemLoc(bv.T[0], app("bvadd", bv.T[1], i64), t.Elem())
-		fr.env[x] = Val{T: []string{e.fresh("eaddr", SInt)}, Typ: x.Type(), Loc: loc}
+		ea := e.fresh("eaddr", SInt)
+		st.assume(app(">", ea, "0"))
+		fr.env[x] = Val{T: []string{ea}, Typ: x.Type(), Loc: loc}
 	case *types.Pointer: // pointer to array
 		at := t.Elem().Underlying().(*types.Array)
 		e.nopanic(st, "index", x, tAnd(app("bvsge", i64, bvLitI(0, 64)), app("bvslt", i64, bvLitI(at.Len(), 64))))
@@ -804,6 +836,7 @@ func (e *Exec) lookup(st *State, x *ssa.Lookup) {
 	k := e.mapKeyTerm(mt, kv)
 	present := tAnd(tNot(tEq(mv.T[0], "0")), e.mapPresent(st, mt, mv.T[0], k, false))
 	val := e.mapValue(st, mt, mv.T[0], k, false)
+	e.protoMapWF(st, mt, present, val)
 	z := e.zeroVal(mt.Elem())
 	out := Val{Typ: x.Type()}
 	for i := range val.T {
@@ -830,6 +863,7 @@ func (e *Exec) mapStore(st *State, mt *types.Map, m, k string, v Val, present bo
 	key := mapKeyName(mt) + "#present"
 	s := arr(SInt, arr(e.mapKeySort(mt), SBool))
 	a := e.curArr(st, key, s)
+	st.wrote(key, m)
 	pv := "true"
 	if !present {
 		pv = "false"
@@ -846,6 +880,18 @@ func (e *Exec) mapStore(st *State, mt *types.Map, m, k string, v Val, present bo
 	st.counts["mapgen"]++
 }
 
+// protoMapWF: values of protobuf map fields are non-nil messages (the protobuf
+// runtime allocates them when unmarshalling; listed as an assumption).
+func (e *Exec) protoMapWF(st *State, mt *types.Map, present string, v Val) {
+	pt, ok := mt.Elem().Underlying().(*types.Pointer)
+	if !ok || len(v.T) != 1 {
+		return
+	}
+	if n, ok := pt.Elem().(*types.Named); ok && n.Obj().Pkg() != nil && n.Obj().Pkg().Name() == "tunnelpb" {
+		st.assume(tImp(present, tNot(tEq(v.T[0], "0"))))
+	}
+}
+
 // range/next over maps and strings: arbitrary enumeration
 func (e *Exec) next(st *State, x *ssa.Next) {
 	fr := st.top()
@@ -860,6 +906,7 @@ func (e *Exec) next(st *State, x *ssa.Next) {
 			k := e.mapKeyTerm(mt, kv)
 			st.assume(tImp(ok, tAnd(tNot(tEq(m, "0")), e.mapPresent(st, mt, m, k, false))))
 			vv := e.mapValue(st, mt, m, k, false)
+			e.protoMapWF(st, mt, ok, vv)
 			tt := x.Type().(*types.Tuple)
 			// tuple is (ok, k, v); k or v may be typed invalid when unused
 			if len(shape(tt.At(1).Type())) == len(kv.T) {
